@@ -42,17 +42,65 @@ func literalScan(s string) (out string, ok bool) {
 
 var c02Alphabet = []byte{'<', '%', '>', '\\', '=', 'a', '"', '#', '\n'}
 
-func c02Ctx() *plush.Context {
-	ctx := plush.NewContext()
-	ctx.Set("cap", func(h plush.HelperContext) (template.HTML, error) {
-		s, err := h.Block()
-		return template.HTML(s), err
+func c02Data() map[string]interface{} {
+	return map[string]interface{}{
+		"cap": func(h plush.HelperContext) (template.HTML, error) {
+			s, err := h.Block()
+			return template.HTML(s), err
+		},
+		"s_html":        template.HTML("<SILENT-HTML>"),
+		"strfn":         func() string { return "SILENT-STR" },
+		"htmlfn":        func() template.HTML { return "<SILENT-FN>" },
+		"partialFeeder": func(n string) (string, error) { return "SILENT-PARTIAL", nil },
+	}
+}
+
+func c02Ctx() *plush.Context { return plush.NewContextWith(c02Data()) }
+
+// c02EntryPoints renders src through the other public entry points; all must
+// agree with plush.Render.
+func c02EntryPoints(b *core.B, src string, want R, which int) {
+	var out string
+	var err error
+	name := ""
+	pan := core.Guard(func() {
+		switch which % 4 {
+		case 0:
+			name = "RenderR"
+			out, err = plush.RenderR(strings.NewReader(src), c02Ctx())
+		case 1:
+			name = "BuffaloRenderer"
+			helpers := map[string]interface{}{}
+			data := c02Data()
+			for _, k := range []string{"cap", "strfn", "htmlfn"} {
+				helpers[k] = data[k]
+				delete(data, k)
+			}
+			out, err = plush.BuffaloRenderer(src, data, helpers)
+		case 2:
+			name = "NewTemplate+Exec"
+			var t *plush.Template
+			t, err = plush.NewTemplate(src)
+			if err == nil {
+				out, err = t.Exec(c02Ctx())
+			}
+		default:
+			name = "Parse+Clone+Exec"
+			var t *plush.Template
+			t, err = plush.Parse(src)
+			if err == nil {
+				out, err = t.Clone().Exec(c02Ctx())
+			}
+		}
 	})
-	ctx.Set("s_html", template.HTML("<SILENT-HTML>"))
-	ctx.Set("strfn", func() string { return "SILENT-STR" })
-	ctx.Set("htmlfn", func() template.HTML { return "<SILENT-FN>" })
-	ctx.Set("partialFeeder", func(n string) (string, error) { return "SILENT-PARTIAL", nil })
-	return ctx
+	b.Count("entry-point:" + name)
+	if pan != nil {
+		b.Violate("entry-point|"+name+"|"+pan.Sig(), pan.Value)
+		return
+	}
+	if (err == nil) != (want.Err == nil) || out != want.Out {
+		b.Violate("entry-points-disagree|"+name, fmt.Sprintf("plush.Render: %s\n%s: out=%q err=%v", want, name, out, err))
+	}
 }
 
 type c02Gen struct {
@@ -280,6 +328,9 @@ func c02Run(b *core.B) {
 			continue
 		}
 		res := render(b, src, c02Ctx())
+		if res.Pan == nil {
+			c02EntryPoints(b, src, res, i)
+		}
 		for c := range g.classes {
 			b.Count("g1:" + c)
 		}
